@@ -161,7 +161,13 @@ class Server(object):
         self._check_close_code(reply)
 
     def _encrypt_session(self):
-        if not self.io.encrypt_socket_server(self.context):
+        try:
+            with Timeout(self.command_timeout):
+                encrypted = self.io.encrypt_socket_server(self.context)
+        except Timeout:
+            # Nothing can be framed in the middle of a handshake.
+            raise ConnectionLost()
+        if not encrypted:
             return False
         self._call_custom_handler('TLSHANDSHAKE')
         self._call_custom_handler('TLSHANDSHAKE2', self.io.socket)
